@@ -24,6 +24,7 @@ Fixpoint bl (b : bexp) : bool :=
   | BIn t _ | BStarts t _ => sl t
   | BNot a => bl a | BAnd a c | BOr a c => bl a && bl c
   | BVarSet _ => false
+  | BAllCells _ => true
   end.
 
 Section CountIfRun.
@@ -57,7 +58,7 @@ Section CountIfRun.
 
   Lemma beval_lo l b : bl b = true -> forall s s' : cst, beval q blanks s l b = beval q blanks s' l b.
   Proof.
-    induction b as [o a c|o a c|a c|a c|a c|e a c|i|i|i|t opts|t p|a IH|a IHa c IHc|a IHa c IHc| | |v]; cbn [bl beval]; intros H s s';
+    induction b as [o a c|o a c|a c|a c|a c|e a c|i|i|i|t opts|t p|a IH|a IHa c IHc|a IHa c IHc| | |v|nh]; cbn [bl beval]; intros H s s';
       try reflexivity; try discriminate.
     - apply andb_prop in H. destruct H as [Ha Hc]. unfold text_of.
       rewrite (neval_lo l a Ha s s'), (neval_lo l c Hc s s'), (nvalue_lo l a Ha s s'), (nvalue_lo l c Hc s s'). reflexivity.
